@@ -93,6 +93,13 @@ impl Prog {
 /// Generates a finalized context with one main graph; the output is a tuple of (up to 4) late nodes
 /// so that most of the graph is live.
 pub fn gen_program(rng: &mut Rng, cfg: &GenCfg) -> Prog {
+    gen_program_impl(rng, cfg, false)
+}
+/// Same generator, but the output is the last array/scalar node (no wrapping tuple).
+pub fn gen_program_single_output(rng: &mut Rng, cfg: &GenCfg) -> Prog {
+    gen_program_impl(rng, cfg, true)
+}
+fn gen_program_impl(rng: &mut Rng, cfg: &GenCfg, single: bool) -> Prog {
     let ctx = create_context().unwrap();
     let g = ctx.create_graph().unwrap();
     let mut p = Prog { ctx: ctx.clone(), g: g.clone(), input_types: vec![], attempts: vec![] };
@@ -333,6 +340,42 @@ pub fn gen_program(rng: &mut Rng, cfg: &GenCfg) -> Prog {
                 let f = match p.try_add(vec![], Operation::Constant(ft, fv), &mut pool) { Some(f) => f, None => continue };
                 (vec![a, b, f], Operation::SegmentCumSum)
             }
+            "random" => {
+                let st = *rng.pick(&cfg.scalar_types);
+                (vec![], Operation::Random(array_type(small_shape(rng), st)))
+            }
+            "prf" => {
+                // key: a Random 128-bit key, or (1/3) a constant key
+                let kt = array_type(vec![128], BIT);
+                let keys: Vec<&Node> = pool.iter().filter(|n| n.get_type().unwrap() == kt).collect();
+                let key = if !keys.is_empty() && rng.chance(1, 2) { (*rng.pick(&keys)).clone() } else if rng.chance(1, 3) {
+                    let kv = gen_value(&kt, rng);
+                    match p.try_add(vec![], Operation::Constant(kt.clone(), kv), &mut pool) { Some(k) => k, None => continue }
+                } else {
+                    match p.try_add(vec![], Operation::Random(kt.clone()), &mut pool) { Some(k) => k, None => continue }
+                };
+                let st = *rng.pick(&cfg.scalar_types);
+                let iv = rng.below(3);
+                if rng.chance(1, 5) { (vec![key], Operation::PermutationFromPRF(iv, 1 + rng.below(5))) } else { (vec![key], Operation::PRF(iv, array_type(small_shape(rng), st))) }
+            }
+            "dup" => {
+                // repeat an earlier operation with the same dependencies (a duplicate sub-expression)
+                let c: Vec<&Node> = pool.iter().filter(|n| !n.get_operation().is_input()).collect();
+                if c.is_empty() { continue; }
+                let a = (*rng.pick(&c)).clone();
+                (a.get_node_dependencies(), a.get_operation())
+            }
+            "annot" => {
+                let a = rng.pick(&pool).clone();
+                let ann = match rng.below(4) { 0 => NodeAnnotation::Private, 1 => NodeAnnotation::Send(rng.below(3), rng.below(3)), 2 => NodeAnnotation::AssociativeOperation, _ => NodeAnnotation::Send(0, 1) };
+                if rng.chance(1, 2) {
+                    // annotated NOP on top of the node
+                    if let Some(n) = p.try_add(vec![a], Operation::NOP, &mut pool) { let _ = n.add_annotation(ann); added += 1; }
+                } else if !matches!(a.get_operation(), Operation::Constant(_, _)) {
+                    let _ = a.add_annotation(ann);
+                }
+                continue;
+            }
             _ => continue,
         };
         if p.try_add(deps, op, &mut pool).is_some() {
@@ -340,9 +383,15 @@ pub fn gen_program(rng: &mut Rng, cfg: &GenCfg) -> Prog {
         }
     }
     // output: tuple of late nodes
-    let k = std::cmp::min(pool.len(), 1 + rng.below(4) as usize);
-    let outs: Vec<Node> = pool.iter().rev().take(k).cloned().collect();
-    let out = g.create_tuple(outs).unwrap();
+    let out = if single {
+        let c: Vec<&Node> = pool.iter().rev().filter(|n| { let t = n.get_type().unwrap(); t.is_array() || t.is_scalar() }).collect();
+        // prefer a late node that is not an input
+        match c.iter().find(|n| !n.get_operation().is_input()) { Some(n) => (**n).clone(), None => (*c[0]).clone() }
+    } else {
+        let k = std::cmp::min(pool.len(), 1 + rng.below(4) as usize);
+        let outs: Vec<Node> = pool.iter().rev().take(k).cloned().collect();
+        g.create_tuple(outs).unwrap()
+    };
     g.set_output_node(out).unwrap();
     g.finalize().unwrap();
     ctx.set_main_graph(g.clone()).unwrap();
